@@ -39,16 +39,37 @@ class _ProxyEndpoint(object):
         return self._pipe._connect(factory)
 
 
+class _SyncCloseTransport(FakeTransport):
+    """A transport whose loseConnection()/abortConnection() report the loss to the protocol at once, from
+    inside the call (twisted's StringTransportWithDisconnection, loopback and TLS-wrapped transports do)."""
+
+    def __init__(self, pipe, on_write=None):
+        FakeTransport.__init__(self, on_write)
+        self._pipe = pipe
+
+    def loseConnection(self):
+        FakeTransport.loseConnection(self)
+        self._pipe.lose()
+
+    def abortConnection(self):
+        FakeTransport.abortConnection(self)
+        self._pipe.lose()
+
+
 class SocksPipe(object):
-    def __init__(self, method_reply, reply_for, report_late=False):
+    def __init__(self, method_reply, reply_for, report_late=False, sync_disconnect=False):
         """``report_late``: the proxy endpoint's connect() Deferred stays unfired until ``report()`` is
         called (an endpoint whose result reaches its caller only after the exchange already happened on
         the connection - legal for an IStreamClientEndpoint)."""
         self.report_late = report_late
+        # sync_disconnect: the client's own loseConnection() calls connectionLost(ConnectionDone) re-entrantly,
+        # before loseConnection() returns (once; a later hang-up by the server is then a no-op)
+        self.sync_disconnect = sync_disconnect
         self._report_d = None
         self.method_reply = bytes(method_reply)
         self.reply_for = reply_for
-        self.transport = FakeTransport(self._on_write)
+        self.transport = _SyncCloseTransport(self, self._on_write) if sync_disconnect else \
+            FakeTransport(self._on_write)
         self.endpoint = _ProxyEndpoint(self)
         self.proto = None
         self.connects = 0
